@@ -6,7 +6,7 @@ TRUSTED = [
     "PKCS#1/IEEE 1363, RFC 9380 and FIPS 197/SP 800-38A (no network: the reading of the standards is anchored on the fixed vectors of "
     "/repo/test/test_md.c, FIPS 197 appendix C and python hashlib inside tools/)",
     "modelled, not verified: the compression functions and the table-driven rijndaelEncrypt/rijndaelDecrypt are tied to the spec by "
-    "correspondence only; BLAKE2s is not modelled",
+    "correspondence only; BLAKE2s (RFC 7693 definition in Spec/Blake2s.lean) is compared one-shot only",
 ]
 ASSUMPTIONS = [
     "message bit length below 2^64 (SHA-256 streaming theorem)",
@@ -25,7 +25,7 @@ def gen_lines(rng, tier):
     out = []
     q = tier == "quick"
     lens = list(range(0, 140)) + [183, 184, 191, 192, 239, 240, 247, 248, 255, 256, 257, 300]
-    for alg in ("sh224", "sh256", "sh384", "sh512"):
+    for alg in ("sh224", "sh256", "sh384", "sh512", "b2s160", "b2s256"):
         for n in (lens if not q else lens[::3] + [55, 56, 63, 64, 111, 112, 119, 120, 127, 128]):
             out.append("md_map %s %s" % (alg, hexs(rng.bytes(n))))
     for kl in ([0, 1, 31, 32, 33, 63, 64, 65, 100, 200] if q else list(range(0, 70)) + [100, 127, 128, 129, 200]):
